@@ -980,8 +980,8 @@ def explore_c13(ctx, res, replay_ops=None):
         res.sample({"op": op, "impl": im})
     res.exhaustive = True
     res.extra["service_lists"] = len(lists)
-    res.rule = ("exhaustive: every route gin registered for each of the 16 ordered lists of distinct service names x 6 token kinds "
-                "(absent, garbage, 'Bearer' garbage, alg=none JWT, HS256 JWT, RS512 JWT signed by another key), OAuth2Required=true, "
+    res.rule = ("exhaustive: every route gin registered for each of the 16 ordered lists of distinct service names x 13 token kinds "
+                "(absent, garbage, 'Bearer' garbage, alg=none JWT, HS256 JWT, RS512 JWT signed by another key, Basic, another scheme, lower-case bearer, three words; three of them also with no NRF certificate configured), OAuth2Required=true, "
                 "NRF certificate generated at run time; expects 401 and an unchanged subscriber pool; distinct = (services, method, path)")
 
 
